@@ -593,6 +593,24 @@ def run_impl(case):
                                  'index_ok': bool(len(df.index) == cur.T and all(a == b for a, b in zip(df.index, cur.timepoints)))}
             except Exception as e:
                 res['prices'] = {'err': err_class(e), 'msg': str(e)[:120]}
+            # the same arrays as ONE DataFrame with a plain numeric index (i-th row = i-th grid point), handed first to
+            # another grid of the same length and then to this one: gridded data pass through unchanged both times
+            if p['dlen'] == 0 and cur.T >= 1 and isinstance(res['prices'], dict) and 'ok' in res['prices']:
+                frame = pd.DataFrame({k_: np.array(v, dtype=float) for k_, v in arrs.items()})
+                g = case['grid']
+                shift = pd.Timedelta(days=7 * 52)
+                try:
+                    other = Timegrid(mk(g['start']) + shift, mk(g['end']) + shift, freq=g['freq'], main_time_unit=g['unit'], timezone=g['tz'])
+                except Exception:
+                    other = None   # (a shifted local date may not exist)
+                if other is not None and other.T == cur.T and not hasattr(cur, 'I_minor_in_major') and len(cur.timepoints) == cur.T:
+                    try:
+                        d1 = other.prices_to_grid(frame)
+                        d2 = cur.prices_to_grid(frame)
+                        res['prices_frame'] = {'first': {c: [float(x) for x in d1[c].values] for c in d1.columns},
+                                               'second': {c: [float(x) for x in d2[c].values] for c in d2.columns}}
+                    except Exception as e:
+                        res['prices_frame'] = {'err': err_class(e), 'msg': '%s: %s' % (type(e).__name__, str(e)[:120])}
     return res
 
 
@@ -1048,6 +1066,17 @@ def oracle(case, ir):
                     V.append(_viol('gridded_passthrough', 'index is not the grid points', kind='prices_index', **base))
         elif 'err' not in ir['prices']:
             V.append(_viol('gridded_passthrough', 'array of wrong length accepted', kind='prices_length', **base))
+        pf_ = ir.get('prices_frame')
+        if pf_ is not None:
+            if 'err' in pf_:
+                V.append(_viol('gridded_passthrough', 'a DataFrame with numeric index handed to two grids of the same length: %s' % pf_['msg'], kind='prices_frame_rejected', **base))
+            else:
+                for which in ('first', 'second'):
+                    for k, v in ir['prices_in'].items():
+                        if pf_[which].get(k) != [float(x) for x in v]:
+                            V.append(_viol('gridded_passthrough', 'DataFrame with numeric index, %s grid it is handed to: column %s comes back as %s, given %s' % (
+                                which, k, pf_[which].get(k), [float(x) for x in v]), kind='prices_frame_changed', **base))
+                            break
     return V
 
 
